@@ -534,11 +534,11 @@ pub fn zoo() -> Vec<Entry> {
 		use crate::derived::*;
 		add!(v; full: UnitS, WithSkip, WithCompact, WithEncodedAs, SingleCompact, SingleCompact16, AllSkip, Simple, Indexed, Discr,
 			DataFixed, TransparentArr, TransparentZst, Named, Tup, SingleSkipRest, Generic<u8>, Generic<String>, TransparentBox,
-			Data, TupEnum, Nested, Tree, Linked, MapTree, BoxTree, CWrap, UsesCWrap, Compact<CWrap>,
+			Data, TupEnum, Nested, Tree, Linked, MapTree, BoxTree, ArcChain, RcList, CWrap, UsesCWrap, Compact<CWrap>,
 			Vec<Named>, Vec<Data>, Option<Simple>, Vec<AllSkip>, Box<TransparentArr>, [TransparentZst; 2], Vec<Tree>,
 			BTreeMap<Simple, Indexed>, (Simple, WithCompact, Discr), Box<TransparentBox>, Vec<UnitS>,
 			TransparentCompact, Box<TransparentCompact>, [TransparentCompact; 3], Rc<TransparentEncodedAs>, [TransparentEncodedAs; 2],
-			Box<SingleCompact>, [WithCompact; 2], Box<DataFixed>, [Data; 2], Arc<Nested>, Box<TupEnum>);
+			Box<SingleCompact>, [WithCompact; 2], Arc<Arc<Arc<u32>>>, Rc<Rc<u8>>, Vec<Arc<Vec<Arc<u16>>>>, Option<Arc<ArcChain>>, Box<DataFixed>, [Data; 2], Arc<Nested>, Box<TupEnum>);
 	}
 
 	#[cfg(feature = "max-encoded-len")]
